@@ -221,9 +221,39 @@ var blockedMarkers = []struct{ frame, what string }{
 	{"sync.(*RWMutex)", "blocked on a read/write mutex"},
 }
 
+// parkedForMinutes: the goroutine header carries a duration of at least one minute ("[chan receive, 2 minutes]").
+func parkedForMinutes(g string) bool {
+	i, j := strings.Index(g, "["), strings.Index(g, "]")
+	return i >= 0 && j > i && strings.Contains(g[i:j], " minutes")
+}
+
+// inCodeUnderTest: the innermost non-runtime, non-sync frame belongs to updog or bbolt, not to the harness.
+func inCodeUnderTest(g string) bool {
+	for _, line := range strings.Split(g, "\n")[1:] {
+		if strings.HasPrefix(line, "\t") || line == "" {
+			continue
+		}
+		if strings.HasPrefix(line, "runtime.") || strings.HasPrefix(line, "sync.") || strings.HasPrefix(line, "internal/") || strings.HasPrefix(line, "sync/") {
+			continue
+		}
+		if strings.Contains(line, "/verifharness") {
+			return false
+		}
+		return strings.Contains(line, "akrennmair/updog") || strings.Contains(line, "go.etcd.io/bbolt")
+	}
+	return false
+}
+
 // ClassifyDump looks for goroutines parked inside updog/bbolt code in a state
 // that cannot make progress. It returns a description ("" if none found).
-func ClassifyDump(dump string) string {
+func ClassifyDump(dump string) string { return classifyDump(dump, false) }
+
+// ClassifyStalledDump is ClassifyDump for a dump taken by a watchdog that has itself established that nothing completed
+// for a long time: a goroutine parked inside the code under test needs no wait duration in its header then (the runtime
+// only knows wait durations as of the last garbage collection).
+func ClassifyStalledDump(dump string) string { return classifyDump(dump, true) }
+
+func classifyDump(dump string, stalled bool) string {
 	var found []string
 	for _, g := range strings.Split(dump, "\n\n") {
 		if !strings.HasPrefix(strings.TrimSpace(g), "goroutine ") {
@@ -236,10 +266,21 @@ func ClassifyDump(dump string) string {
 		if !strings.Contains(g, "akrennmair/updog") && !strings.Contains(g, "go.etcd.io/bbolt") {
 			continue
 		}
+		marked := false
 		for _, m := range blockedMarkers {
 			if strings.Contains(g, m.frame) {
 				found = append(found, fmt.Sprintf("[%s] %s", st, m.what))
+				marked = true
 				break
+			}
+		}
+		// anything else parked for at least a minute in a frame of the code under test (not of the harness): waiting for a
+		// channel, a WaitGroup or a condition that nobody will signal any more (a watchdog only fires after every
+		// legitimate computation of the workloads has long finished)
+		if !marked && (stalled || parkedForMinutes(g)) && inCodeUnderTest(g) {
+			switch st {
+			case "chan receive", "chan send", "select", "semacquire", "sync.WaitGroup.Wait", "sync.Cond.Wait", "sync.Mutex.Lock", "sync.RWMutex.RLock", "sync.RWMutex.Lock", "chan receive (nil chan)", "chan send (nil chan)", "select (no cases)":
+				found = append(found, fmt.Sprintf("[%s] parked inside the code under test for minutes", st))
 			}
 		}
 	}
